@@ -426,11 +426,12 @@ EVAL_RULE = (
     "abundance_sum (|sum-100|<=1e-9 for each element listed in the composition table); weighted_mass "
     "(|sum(p_i m_i)/100 - M| <= max(unc(M), 1e-12*|M|) using the served values, for composition-table "
     "elements that have an atomic weight; the 1e-12*|M| slack only absorbs float rounding of a <=10 term "
-    "sum (~1e-15 relative) and is >20x below the smallest stated uncertainty 5e-9); density "
+    "sum (~1e-15 relative) and is >100x below the smallest stated uncertainty 5e-9); density "
     "(exact vs element_densities literal; None stays None), density_caveat (tuple rows: the string; plain "
     "rows: ''; None rows: any str, the table has no entry); isotope_set (served isotopes of an element == "
-    "rows of isotope_mass, plus n-1). distinct = evaluations whose expected value comes from a table cell, "
-    "i.e. excluding the constant-0 abundance checks of isotopes absent from the composition table.")
+    "rows of isotope_mass, plus n-1). Both tiers run the same complete enumeration. distinct = evaluations "
+    "whose expected value comes from a table cell, i.e. excluding the constant-0 abundance checks of "
+    "isotopes absent from the composition table.")
 
 
 class _Collector(object):
@@ -496,7 +497,7 @@ def _eval_atom_fields(col, exp, table, tname, z, a, fields=None):
     def inp(field):
         return {"task": "eval_tables", "table": tname, "Z": z, "symbol": sym, "A": a, "field": field}
 
-    def ident(_field=None):
+    def ident():
         return "%s:%s" % (_atom_id(z, sym, a), tname)
 
     if a is None:
@@ -576,8 +577,9 @@ def _eval_atom_fields(col, exp, table, tname, z, a, fields=None):
                                  inp("weighted_mass"),
                                  {"weighted": wm, "difference": wm - M},
                                  {"atomic_weight": M, "uncertainty": U, "bound": bound})
-                    col.sample({"table": tname, "atom": _atom_id(z, sym), "field": "weighted_mass",
-                                "weighted": wm, "atomic_weight": M, "unc": U}) if z == 8 else None
+                    if z == 8:
+                        col.sample({"table": tname, "atom": _atom_id(z, sym), "field": "weighted_mass",
+                                    "weighted": wm, "atomic_weight": M, "unc": U})
                 except Exception as exc:
                     col.fail("weighted_mass", ident(), "computing the weighted mass raised",
                              inp("weighted_mass"), "%s: %s" % (type(exc).__name__, exc), "a number")
@@ -623,7 +625,9 @@ def _eval_atom_fields(col, exp, table, tname, z, a, fields=None):
     else:
         if want("abundance"):
             _check_value(col, "abundance", ident(), inp("abundance"), _get(iso, "abundance"), 0, _exact,
-                         "isotope absent from the composition table does not have abundance 0", trivial=True)
+                         "isotope absent from the composition table does not have abundance 0"
+                         + (" (the neutron pseudo-isotope n-1: mass.init hard-codes 100)" if z == 0 else ""),
+                         trivial=True)
         if want("_abundance_unc"):
             _check_value(col, "_abundance_unc", ident(), inp("_abundance_unc"), _get(iso, "_abundance_unc"),
                          0, _exact, "isotope absent from the composition table has a non-zero abundance "
@@ -646,6 +650,19 @@ def _atoms_to_check(exp, table):
     return sorted(zs), sorted(pairs)
 
 
+def _lazy_isotope_note(exp, table):
+    """Observation only: do the lazily loaded neutron tables add nuclides that have no isotope_mass row?"""
+    try:
+        for attr in ("neutron", "neutron_activation"):
+            _get(table[1], attr)
+        served = set((el.number, iso.isotope) for el in table for iso in el)
+        extra = sorted(served - set(exp.iso_mass))
+        return ("after forcing the lazy neutron / neutron_activation loads the public table serves %d isotopes, "
+                "%d of them without an isotope_mass row %s" % (len(served), len(extra), extra[:10]))
+    except Exception as exc:
+        return "lazy-load isotope observation failed: %s: %s" % (type(exc).__name__, exc)
+
+
 def task_eval_tables(tier, seed, arg):
     exp = Expected()
     exp.crosscheck_with_modules()
@@ -659,8 +676,8 @@ def task_eval_tables(tier, seed, arg):
             _eval_atom_fields(col, exp, table, tname, z, None)
         for z, a in pairs:
             _eval_atom_fields(col, exp, table, tname, z, a)
-        # composition-table isotopes must be mass-table isotopes, density symbols must be elements
         notes.append("%s table: %d elements, %d isotopes checked" % (tname, len(zs), len(pairs)))
+    notes.append(_lazy_isotope_note(exp, tables["public"]))
     for sym in exp.density_order:
         if sym not in set(exp.symbol.values()):
             notes.append("element_densities key %s is not a symbol of the mass tables" % sym)
@@ -711,7 +728,7 @@ def _density_checks(col, el, n_a, only=None, only_a=None):
     if s_rho == "raise" or s_m == "raise":
         col.fail("element_access_raises", _atom_id(z, sym), "element density or mass raised",
                  inp("element_access_raises"), {"density": rho, "mass": m}, "values")
-        return
+        return 0
     unknown = rho is None
     trivial = unknown
 
@@ -729,6 +746,10 @@ def _density_checks(col, el, n_a, only=None, only_a=None):
                 else:
                     col.fail("number_density", ident, "number_density is not None although density is unknown",
                              inp("number_density", a), n, None, trivial=trivial)
+            elif not (_is_number(rho_x) and _is_number(m_x) and m_x != 0):
+                col.fail("number_density", ident, "density or mass of the atom is not a usable number",
+                         inp("number_density", a), {"density": rho_x, "mass": m_x, "number_density": n},
+                         "numbers")
             else:
                 expected = rho_x * n_a / m_x
                 if _close(n, expected, DENSITY_REL):
@@ -760,45 +781,43 @@ def _density_checks(col, el, n_a, only=None, only_a=None):
     number_and_distance(el, None, rho, m)
 
     raised = []          # (A, message) of isotopes whose density access raised
+    replay_raises = only == "isotope_density_raises"
     for iso in el:
         a = iso.isotope
         ident = _atom_id(z, sym, a)
         s_im, im = _get(iso, "mass")
         s_id, irho = _get(iso, "density")
-        if only is None or (only in ("isotope_density", "isotope_density_raises")):
-            if only is None or only == "isotope_density_raises" or only_a == a:
-                if s_id == "raise":
+        if only is None or replay_raises or (only == "isotope_density" and only_a == a):
+            if s_id == "raise":
+                # collected; reported once per element below
+                col.ok(trivial)
+                raised.append((a, irho))
+            elif replay_raises:
+                col.ok(trivial)
+            elif unknown:
+                if irho is None:
                     col.ok(trivial)
-                    raised.append((a, irho))
-                elif unknown:
-                    if irho is None:
-                        col.ok(trivial)
-                    else:
-                        col.fail("isotope_density", ident,
-                                 "isotope density is not None although the element density is unknown",
-                                 inp("isotope_density", a), irho, None, trivial=trivial)
-                elif s_im == "raise" or not _is_number(im):
-                    col.fail("isotope_density", ident, "isotope mass unavailable", inp("isotope_density", a),
-                             im, "a mass")
                 else:
-                    expected = rho * im / m
-                    if _close(irho, expected, DENSITY_REL):
-                        col.ok()
-                        if (z, a) == (1, 2):
-                            col.sample({"atom": ident, "check": "isotope_density", "element_density": rho,
-                                        "iso_mass": im, "element_mass": m, "served": irho, "expected": expected})
-                    else:
-                        col.fail("isotope_density", ident,
-                                 "isotope density != element density * isotope mass / element mass",
-                                 inp("isotope_density", a), irho, expected)
-        if s_id == "raise":
-            irho_for_n = None if unknown else "raised"
-        else:
-            irho_for_n = irho
-        if irho_for_n == "raised":
-            continue        # already reported through isotope_density_raises; n has no reference value
-        if only is None or only in ("number_density", "interatomic_distance"):
-            number_and_distance(iso, a, irho_for_n, im)
+                    col.fail("isotope_density", ident,
+                             "isotope density is not None although the element density is unknown",
+                             inp("isotope_density", a), irho, None, trivial=trivial)
+            elif s_im == "raise" or not _is_number(im) or not _is_number(m):
+                col.fail("isotope_density", ident, "isotope or element mass unavailable",
+                         inp("isotope_density", a), {"iso_mass": im, "element_mass": m}, "masses")
+            else:
+                expected = rho * im / m
+                if _close(irho, expected, DENSITY_REL):
+                    col.ok()
+                    if (z, a) == (1, 2):
+                        col.sample({"atom": ident, "check": "isotope_density", "element_density": rho,
+                                    "iso_mass": im, "element_mass": m, "served": irho, "expected": expected})
+                else:
+                    col.fail("isotope_density", ident,
+                             "isotope density != element density * isotope mass / element mass",
+                             inp("isotope_density", a), irho, expected)
+        if s_id == "raise" and not unknown:
+            continue        # reported through isotope_density_raises; no reference density for n and d
+        number_and_distance(iso, a, None if unknown else irho, im)
 
     if raised:
         a0, msg0 = raised[0]
@@ -831,7 +850,7 @@ def task_density_algebra(tier, seed, arg):
     for el in periodictable.elements:
         n_el += 1
         n_iso += len(el.isotopes)
-        raised_total += _density_checks(col, el, n_a) or 0
+        raised_total += _density_checks(col, el, n_a)
         if _get(el, "density") == ("ok", None):
             n_unknown += 1
     notes.append("%d elements (%d with unknown density), %d isotopes; N_A=%r; isotope.density raised for "
@@ -854,11 +873,13 @@ PARSE_RULE = (
     "passes them ('<' and '*' removed) -- parsed by the real parse_uncertainty and by the independent "
     "Decimal reader; one evaluation per distinct-by-position cell, distinct = distinct cell strings. "
     "Part B (BOUNDED, seeded sample, not exhaustive): synthetic strings in the documented notations "
-    "(val, val#, val(unc), val(unc)#, val(u.nc), integer val(unc), unc with more digits than val has "
+    "(val, val(unc), val(unc)#, val(u.nc), integer val(unc), unc with more digits than val has "
     "decimals, negative val, [nominal], [low,high], empty), quick 2000 / thorough 50000 from "
     "random.Random(seed). Comparison: value and uncertainty exactly equal to float(Decimal) for all forms "
-    "except [low,high], where the documented formula is evaluated in floats by the library: midpoint within "
-    "4 ulp of max(|low|,|high|), width/sqrt(12) within rel 1e-14. exhaustive=False because of part B.")
+    "except [low,high], where the documented formula is evaluated in floats by the library and low, high are "
+    "each rounded to a float before being added / subtracted: midpoint and (high-low)/sqrt(12) both within "
+    "4 ulp of max(|low|,|high|) (absolute) of the exact Decimal result. A trailing '#' is documented only "
+    "after val(unc), so 'val#' is not generated. exhaustive=False because of part B.")
 
 
 def _compare_cell(cell):
@@ -880,9 +901,9 @@ def _compare_cell(cell):
     elif form == "range":
         m = _RE_RANGE.match(cell.strip())
         scale = max(abs(float(m.group(1))), abs(float(m.group(2))), sys.float_info.min)
+        tol = RANGE_ULPS * math.ulp(scale)
         ok = (_is_number(got[0]) and _is_number(got[1])
-              and abs(got[0] - expected[0]) <= RANGE_ULPS * math.ulp(scale)
-              and _close(got[1], expected[1], 1e-14))
+              and abs(got[0] - expected[0]) <= tol and abs(got[1] - expected[1]) <= tol)
     else:
         ok = _exact(got[0], expected[0]) and _exact(got[1], expected[1])
     return ok, list(got), list(expected), form
@@ -911,7 +932,7 @@ def _table_cells():
             for i, x in enumerate(iso["extra"]):
                 if x.startswith("["):
                     cells.append(("isotope_abundance/%s/remark%d" % (atom, i), x))
-    notes = list(exp.notes)
+    notes = []          # exp.notes (table-structure observations) are reported by eval_tables
     # nsf tables (fix_number -> parse_uncertainty); layout from the comment block above nsftable
     try:
         tree, _, _ = _parse_module("nsf")
@@ -948,12 +969,10 @@ def _synthetic(rng):
         if nf:
             s += "." + _digits(rng, nf)
         return s, nf
-    kind = rng.choice(("plain", "plain_hash", "value_unc", "value_unc", "value_unc_hash", "unc_point",
+    kind = rng.choice(("plain", "value_unc", "value_unc", "value_unc_hash", "unc_point",
                        "int_unc", "unc_wider", "negative", "nominal", "range", "range", "empty"))
     if kind == "plain":
         return kind, val()[0]
-    if kind == "plain_hash":
-        return kind, val()[0] + "#"
     if kind in ("value_unc", "value_unc_hash", "negative"):
         nf = rng.randint(1, 13)
         v, _ = val(force_frac=nf)
@@ -992,7 +1011,6 @@ def task_parse_uncertainty_cells(tier, seed, arg):
     cells, notes = _table_cells()
     distinct = set()
     forms = {}
-    unreadable = {}
     for where, cell in cells:
         ok, got, expected, form = _compare_cell(cell)
         forms[form] = forms.get(form, 0) + 1
@@ -1000,7 +1018,6 @@ def task_parse_uncertainty_cells(tier, seed, arg):
         inp = {"task": "parse_uncertainty_cells", "cell": cell, "where": where}
         if ok is None:
             # not a documented notation: the independent reader has no reference value
-            unreadable.setdefault(cell, where)
             col.fail("unreadable_cell", where, "table cell is in none of the documented notations",
                      inp, _safe_parse(cell), expected)
         elif ok:
@@ -1012,6 +1029,12 @@ def task_parse_uncertainty_cells(tier, seed, arg):
             col.fail("table_cell", where, "parse_uncertainty disagrees with the documented reading of a "
                      "table cell", inp, got, expected)
     n_table = col.evaluations
+    wider = [w for w, c in cells if _unc_wider(c)]
+    notes.append("table cells whose (unc) has more digits than val has decimals: %d in mass.py tables, %d in "
+                 "nsf tables %s (fix_number keeps only the value of nsf cells)"
+                 % (sum(1 for w in wider if not w.startswith("nsftable")),
+                    sum(1 for w in wider if w.startswith("nsftable")),
+                    [w for w in wider if w.startswith("nsftable")][:5]))
     notes.append("part A: %d table cells (%d distinct strings), forms %s"
                  % (n_table, len(distinct), dict(sorted(forms.items()))))
     # ---- part B: bounded
@@ -1046,6 +1069,13 @@ def task_parse_uncertainty_cells(tier, seed, arg):
                                            dict(sorted(class_fail.items()))))
     return _result(col.evaluations, len(distinct) + len(synth_distinct), PARSE_RULE, False, col.samples,
                    col.violations, notes, col.counts)
+
+
+def _unc_wider(cell):
+    m = _RE_VALUNC.match(cell.strip())
+    if not m or "." in m.group(2) or "." not in m.group(1):
+        return False
+    return len(m.group(2)) > len(m.group(1).split(".")[1])
 
 
 def _safe_parse(cell):
